@@ -460,7 +460,7 @@ func c16CollectAndContinue(r *an.Run, m *runModel) {
 		r.Check(recorded && reachesHeader, short(f)+"|recorded|"+describeErrSource(e), iff.Pos(), "when %s is non-nil the accumulator gains an error derived from it before the next file", describeErrSource(e))
 	}
 	r.Count("error edges in the file loop", n)
-	r.Min("error edges in the file loop", 6)
+	r.Min("error edges in the file loop", 4)
 }
 
 func c16ExitStatus(r *an.Run, m *runModel) {
@@ -612,7 +612,7 @@ func c16Messages(r *an.Run, m *runModel) {
 		r.Check(good, key, app.Pos(), "an error recorded unwrapped comes from a call that was given the file's path (os errors name it) or from the output stream")
 	}
 	r.Count("errors recorded in the file loop", n)
-	r.Min("errors recorded in the file loop", 6)
+	r.Min("errors recorded in the file loop", 4)
 	// patch loading errors are wrapped with the patch path
 	if lp := fn(r, mainP, "loadPatches"); lp != nil {
 		for _, ret := range an.Returns(lp) {
